@@ -41,7 +41,8 @@ CONSTANTS
   MutNoRetire,        \* mutant: stream producers are never retired
   MutNilRelease,      \* mutant (pre-fix code): retiring a stream consumer whose reader never opened panics
   MutLenientCount,    \* mutant: the "fewer records than payloads" check only fires when nothing was decoded
-  MutSkipUnknown      \* mutant: RelatedDataFrom skips records of a type it does not know
+  MutSkipUnknown,     \* mutant: RelatedDataFrom skips records of a type it does not know
+  MutOpenOnCreate     \* mutant: the IPC reader is opened only when the stream consumer is created (a failed open is never retried)
 
 VARIABLES
   pstreams,   \* producer: set of [key, id, pt, n, sig]   (streamProducers; n = payloads written)
@@ -106,7 +107,9 @@ ProduceBatch(s, recs) ==
   /\ LET st == EmitAll([streams |-> pstreams, next |-> nextId, out |-> <<>>, ann |-> ann, ret |-> retiredIds], s, recs)
      IN /\ pstreams' = st.streams /\ nextId' = st.next /\ ann' = st.ann /\ retiredIds' = st.ret
         /\ wire' = st.out /\ orig' = st.out
-        /\ judged' = (Ids(st.out) \cap gapped = {})
+        \* a gapped sub-stream only matters while the consumer holds a reader that was opened on it: a reader that never
+        \* opened (or none at all) has no state a hole could corrupt - the next payload simply tries to open it again
+        /\ judged' = (\A x \in cstreams : x.id \in Ids(st.out) \cap gapped => x.st = "unopened")
   /\ batchId' = batchId + 1 /\ bsig' = s /\ phase' = "flight"
   /\ pos' = 1 /\ got' = <<>> /\ res' = "none"
   /\ UNCHANGED <<cstreams, nfaults, altered, gapped>>
@@ -150,7 +153,8 @@ ConsumeStep ==
   /\ LET p == wire[pos]
          hit == {x \in cstreams : x.id = p.id}
          dead == IF hit # {} THEN {} ELSE {x \in cstreams : x.pt = p.pt}
-         crash == MutNilRelease /\ \E x \in dead : x.st = "unopened"
+         crash == \/ MutNilRelease /\ \E x \in dead : x.st = "unopened"
+                  \/ MutOpenOnCreate /\ \E x \in hit : x.st = "unopened"      \* Next() on the nil reader of a failed open
          sc0 == IF hit # {} THEN CHOOSE x \in hit : TRUE
                 ELSE [id |-> p.id, pt |-> p.pt, st |-> "unopened", src |-> UnknownId, cnt |-> 0]
          rest == (cstreams \ dead) \ hit
